@@ -13,7 +13,7 @@ NOTE_COMMON = ("Trusted: Lean 4.33 kernel; axioms per theorem subset of {propext
 CLAIMED = {
     "C06": ("Lean 4 theorems on an executable model of linear_lib.project / categorical project / "
             "internal_utils partial-order projection + differential correspondence against the real constraints",
-            "Theorems: signs, every dominance / ordering pair, bounds and feasible=>unchanged for every weight "
+            "Theorems (Props/C06.lean): categorical pairs+bounds+fixpoint; Linear sign clip, monotonic-dominance and range-dominance stages establish every pair and keep signs (non-zero scalings), normalisation keeps all and gives unit 1-norm, feasible=>unchanged; for every weight "
             "vector, pair set and valid topological order; the order validity of the modelled _topological_sort "
             "is a decidable hypothesis evaluated on every correspondence case.",
             "4/C06", ""),
